@@ -49,4 +49,26 @@ def bindCall (names bound : List String) : Except String (List (String × ArgSou
   else .ok ((names.take nFree).zipIdx.map (fun (n, k) => (n, .positional k)) ++
             (names.drop nFree).map (fun n => (n, .boundDep)))
 
+/-! ### signature defaults and the explicit-parameter call -/
+
+/-- `DependenceFunction.__init__` reads the parameters of the callable after `x` from its
+signature: a parameter with a default keeps it, one without gets the value `1`.
+`sig` lists (name, default?) in declaration order. -/
+def defaultParams {α} [OfNat α 1] (sig : List (String × Option α)) : List (String × α) :=
+  sig.map fun (n, d) => (n, d.getD 1)
+
+/-- which values `DependenceFunction.__call__(x, *args, **kwargs)` hands to the callable:
+the stored parameters when no value is given, the given ones when their number equals the number
+of free (not dependence-function-bound) parameters, otherwise `ValueError`. -/
+inductive CallMode where
+  | stored
+  | explicit
+  | error
+  deriving Repr, DecidableEq
+
+def callMode (nFree nArgs nKw : Nat) : CallMode :=
+  if nArgs + nKw = 0 then .stored
+  else if nArgs + nKw = nFree then .explicit
+  else .error
+
 end VirVerif
